@@ -280,3 +280,87 @@ def kernel_faults(case, note):
                                 sig='C12.removed:json:efbig')
             note.label('fsize-%s' % ('below' if limit < len(expected) else 'enough'))
         note.nontrivial = True
+
+
+# ---------------------------------------------------------------------------
+# "that same file": several files in one --json --clean run
+# ---------------------------------------------------------------------------
+
+BY_EXTS = ['', '.pel', '.bin', '.pel', '']
+
+
+@st.composite
+def bystander_case(draw):
+    n = draw(st.integers(2, 7))
+    files = []
+    for i in range(n):
+        state = draw(st.sampled_from(['good', 'good', 'good', 'filtered', 'junk', 'prefix']))
+        pel = draw(D.dir_pel(0x50000000 + i, selectable=(state != 'filtered')))
+        if state == 'filtered':
+            pel['uh']['flags'] |= 0x4000
+        enc = M.encode(pel)
+        blob = {'junk': b'not a PEL at all', 'prefix': enc[:draw(st.integers(0, len(enc) - 1))]}.get(state, enc)
+        # names chosen so that neither name order nor creation order is the order of the kinds
+        name = '%s%02d%s' % (draw(st.sampled_from(['pel', 'a', 'z', 'log_'])), i, draw(st.sampled_from(BY_EXTS)))
+        files.append({'name': name, 'state': state, 'eid': 0x50000000 + i, 'blob': blob})
+    order = draw(st.permutations(list(range(n))))
+    return {'files': files, 'create_order': list(order), 'ext': draw(st.sampled_from([None, '.pel', '.pel', '.bin'])),
+            'outdir': draw(st.sampled_from(['same', 'other'])), 'sel': draw(D.selection(allow_only=False))}
+
+
+@PROP.given('same-file', lambda tier: bystander_case(), quick=480, thorough=4000, shards_quick=8)
+def same_file(case, note):
+    """an input file may disappear only if ITS OWN document was written completely"""
+    import json
+    with D.TempDir('c12b') as top:
+        d = os.path.join(top, 'logs')
+        out = os.path.join(top, 'out') if case['outdir'] == 'other' else d
+        os.makedirs(d)
+        os.makedirs(out, exist_ok=True)
+        for i in case['create_order']:
+            f = case['files'][i]
+            with open(os.path.join(d, f['name']), 'wb') as fh:
+                fh.write(f['blob'])
+        argv = ['-p', d, '-j', '-c'] + (['-o', out] if case['outdir'] == 'other' else [])
+        if case['ext']:
+            argv += ['-e', case['ext']]
+        argv += D.selection_argv(case['sel'])
+        r = cli.forked(argv, timeout=60)
+        what = 'peltool ' + ' '.join(a.replace(top, '<top>') for a in argv)
+        if 'Traceback (most recent call last)' in r.err:
+            raise Violation('C12.traceback', '%s printed a traceback: %s' % (what, r.err[-400:]))
+        removed = 0
+        for f in case['files']:
+            path = os.path.join(d, f['name'])
+            if os.path.exists(path):
+                with open(path, 'rb') as fh:
+                    if fh.read() != f['blob']:
+                        raise Violation('C12.modified', '%s: input file %s was modified' % (what, f['name']),
+                                        sig='C12.modified')
+                continue
+            removed += 1
+            # gone: its own complete document must be there
+            if case['ext'] and os.path.splitext(f['name'])[1] != case['ext']:
+                raise Violation('C12.removed-without-output', '%s removed %s, a file the --extension option excludes '
+                                '(files: %r)' % (what, f['name'], [(x['name'], x['state']) for x in case['files']]),
+                                sig='C12.same-file:excluded')
+            if f['state'] in ('junk', 'prefix'):
+                raise Violation('C12.removed-without-output', '%s removed %s, which cannot be decoded'
+                                % (what, f['name']), sig='C12.same-file:undecodable')
+            op = os.path.join(out, '%s.%08X.json' % (f['name'], f['eid']))
+            try:
+                with open(op) as fh:
+                    doc = json.load(fh)
+                ok = int(doc['Private Header']['Entry Id'], 16) == f['eid']
+            except (OSError, ValueError, KeyError, TypeError):
+                ok = False
+            if not ok:
+                raise Violation('C12.removed-without-output', '%s removed %s but there is no complete JSON document '
+                                'for it (%s; output directory holds %r)' % (what, f['name'], os.path.basename(op),
+                                                                            sorted(os.listdir(out))[:12]),
+                                sig='C12.same-file:no-output')
+        kinds = {f['state'] for f in case['files']}
+        note.label('removed=%s' % (removed if removed < 3 else '3+'), 'ext' if case['ext'] else 'no-ext')
+        note.nontrivial = removed >= 1 and len(kinds) >= 2 and \
+            (bool(case['ext']) and any(os.path.splitext(f['name'])[1] != case['ext'] for f in case['files']) or
+             bool(kinds & {'junk', 'prefix', 'filtered'}))
